@@ -135,10 +135,14 @@ def run(tier, replay):
                 V.violation(res["bad"][0], desc)
         # churn: disconnects overlapping accepts (the two critical sections of the counter run from different goroutines)
         co = os.path.join(wd, "churn.json")
-        rc, out = vlib.go_test(wd, "./internal/server", OV, "TestC14Churn", env={"VERIF_OUT": co, "VERIF_ROUNDS": 6 if tier == "quick" else 40}, timeout=1500)
-        if rc != 0 or not os.path.exists(co):
-            raise vlib.Inconclusive("churn harness failed\n" + out[-2500:])
-        churn = json.load(open(co))
+        if len(V.violations) >= 1 and any("mutex is held for good" in v["what"] for v in V.violations) or len(V.violations) >= 3:
+            # the replay has already shown a server that does not recover: the churn stage would only wait for its timeouts
+            churn = {"bad": [], "connections": 0, "skipped": "the replay reported violations"}
+        else:
+            rc, out = vlib.go_test(wd, "./internal/server", OV, "TestC14Churn", env={"VERIF_OUT": co, "VERIF_ROUNDS": 6 if tier == "quick" else 40}, timeout=1500)
+            if rc != 0 or not os.path.exists(co):
+                raise vlib.Inconclusive("churn harness failed\n" + out[-2500:])
+            churn = json.load(open(co))
         for b in churn["bad"] or []:
             V.violation("churn: " + b, {"connections": churn["connections"], "bad": churn["bad"]})
         cov = {"states": states, "transitions": trans, "traces_validated_against_impl": len(cases), "churn_connections": churn["connections"],
